@@ -32,6 +32,9 @@ pub struct Spec {
     /// the timeout Disconnect frame is accepted only this many bytes; the rest not before this time (ms)
     #[serde(default)]
     dc_write_stall: Option<(usize, u64)>,
+    /// the operator's `disconnect_timeout` message for the language en (None: the harness default, a JSON object)
+    #[serde(default)]
+    timeout_msg: Option<String>,
 }
 
 fn echo_of(s: &str) -> Echo {
@@ -63,6 +66,17 @@ fn build(s: &Spec) -> Case {
         case.transport.writes.push(WriteDev { frame: 3, prog: vec![WStep::Accept(first), WStep::Until(until)] });
     }
     case.horizon_ms = 400_000;
+    if let Some(m) = &s.timeout_msg {
+        for (lang, table) in case.adapters.loc_messages.iter_mut() {
+            if lang == "en" {
+                for (k, v) in table.iter_mut() {
+                    if k == "disconnect_timeout" {
+                        *v = m.clone();
+                    }
+                }
+            }
+        }
+    }
     if let Some((first, until)) = s.dc_write_stall {
         // where the timeout Disconnect is in the sequence of clientbound frames is read off the undisturbed run
         let base = crate::sim::run(&case);
@@ -149,7 +163,14 @@ fn judge(s: &Spec, obs: &Obs) -> Vec<(String, String)> {
             // the Disconnect carries the timeout message (client locale once it is known)
             let known = t_ci.is_some_and(|t| t < *x);
             let at_same_instant = t_ci == Some(*x);
-            let ok = if at_same_instant { *reason == timeout_text(&s.locale) || *reason == timeout_text("en") } else if known { *reason == timeout_text(&s.locale) } else { *reason == timeout_text("en") };
+            let ok = match &s.timeout_msg {
+                // (text that is not a JSON object is a plain string component; only en-speaking clients get these specs)
+                Some(m) if !m.starts_with('{') => *reason == Value::String(m.clone()),
+                Some(m) => serde_json::from_str::<Value>(m).ok().as_ref() == Some(reason),
+                None if at_same_instant => *reason == timeout_text(&s.locale) || *reason == timeout_text("en"),
+                None if known => *reason == timeout_text(&s.locale),
+                None => *reason == timeout_text("en"),
+            };
             if !ok {
                 bad("timeout-disconnect-text", format!("Disconnect text {reason} for client locale {:?} (Client Information at {t_ci:?} ms, Disconnect at {x} ms)", s.locale));
             }
@@ -220,7 +241,7 @@ fn specs(thorough: bool) -> Vec<Spec> {
                         continue;
                     }
                     for uns in if thorough { vec![None, Some(5_000u64)] } else { vec![None] } {
-                        v.push(Spec { lat: *lat, ci_after: ci, echo: e.to_string(), unsolicited_every: uns, auth_ms: auth, locale: if ci % 20_000 == 0 { "de_de".into() } else { "en_us".into() }, ka_write_stall: None, dc_write_stall: None });
+                        v.push(Spec { lat: *lat, ci_after: ci, echo: e.to_string(), unsolicited_every: uns, auth_ms: auth, locale: if ci % 20_000 == 0 { "de_de".into() } else { "en_us".into() }, ka_write_stall: None, dc_write_stall: None, timeout_msg: None });
                     }
                 }
             }
@@ -231,7 +252,7 @@ fn specs(thorough: bool) -> Vec<Spec> {
     for (lat, until) in [([20_000u64, 20_000, 0], 20_001u64), ([17_000, 0, 40_000], 17_000), ([0, 18_000, 30_000], 18_001), ([16_001, 16_001, 16_001], 16_002)] {
         for e in ["never", "wrong-id", "prompt", "delay-1000", "delay-15000"] {
             for first in [1usize, 5, 9] {
-                v.push(Spec { lat, ci_after: 0, echo: e.into(), unsolicited_every: None, auth_ms: 0, locale: "en_us".into(), ka_write_stall: Some((first, until)), dc_write_stall: None });
+                v.push(Spec { lat, ci_after: 0, echo: e.into(), unsolicited_every: None, auth_ms: 0, locale: "en_us".into(), ka_write_stall: Some((first, until)), dc_write_stall: None, timeout_msg: None });
             }
         }
     }
@@ -240,8 +261,14 @@ fn specs(thorough: bool) -> Vec<Spec> {
     for (lat, until) in [([33_000u64, 20_000, 0], 34_000u64), ([33_000, 20_000, 0], 60_000), ([0, 33_000, 20_000], 34_000), ([0, 0, 33_000], 40_000), ([40_000, 0, 0], 41_000), ([20_000, 13_000, 40_000], 33_500)] {
         for e in ["never", "wrong-id"] {
             for first in [1usize, 5] {
-                v.push(Spec { lat, ci_after: 0, echo: e.into(), unsolicited_every: None, auth_ms: 0, locale: "en_us".into(), ka_write_stall: None, dc_write_stall: Some((first, until)) });
+                v.push(Spec { lat, ci_after: 0, echo: e.into(), unsolicited_every: None, auth_ms: 0, locale: "en_us".into(), ka_write_stall: None, dc_write_stall: Some((first, until)), timeout_msg: None });
             }
+        }
+    }
+    // what the operator may have written as the timeout message: plain text of any shape, or a JSON object
+    for m in ["[Passage] timed out", "\"quoted\" text", "42", "true", "null", " leading blank", "[1, 2", "}{", "Zeit\u{fc}berschreitung \u{1f600}", "{\"text\":\"t\",\"extra\":[{\"text\":\"x\",\"color\":\"red\"}]}", ""] {
+        for e in ["never", "wrong-id"] {
+            v.push(Spec { lat: [50_000, 0, 0], ci_after: 0, echo: e.into(), unsolicited_every: None, auth_ms: 0, locale: "en_us".into(), ka_write_stall: None, dc_write_stall: None, timeout_msg: Some(m.to_string()) });
         }
     }
     // locales with multi-byte characters around every byte offset up to 24: the timeout Disconnect is built for
@@ -253,16 +280,16 @@ fn specs(thorough: bool) -> Vec<Spec> {
                 if e == "prompt" && pad % 5 != 0 {
                     continue;
                 }
-                v.push(Spec { lat: [50_000, 0, 0], ci_after: 0, echo: e.into(), unsolicited_every: None, auth_ms: 0, locale: loc.clone(), ka_write_stall: None, dc_write_stall: None });
+                v.push(Spec { lat: [50_000, 0, 0], ci_after: 0, echo: e.into(), unsolicited_every: None, auth_ms: 0, locale: loc.clone(), ka_write_stall: None, dc_write_stall: None, timeout_msg: None });
             }
         }
     }
     for loc in ["sr_cyrl_rs_\u{441}\u{440}\u{43f}", "de_\u{e9}\u{e9}\u{e9}\u{e9}\u{e9}\u{e9}\u{e9}\u{e9}\u{e9}\u{e9}", "zh_Hant_TW_x_ab\u{e9}\u{e9}"] {
-        v.push(Spec { lat: [0, 50_000, 0], ci_after: 10_000, echo: "never".into(), unsolicited_every: None, auth_ms: 0, locale: loc.into(), ka_write_stall: None, dc_write_stall: None });
+        v.push(Spec { lat: [0, 50_000, 0], ci_after: 10_000, echo: "never".into(), unsolicited_every: None, auth_ms: 0, locale: loc.into(), ka_write_stall: None, dc_write_stall: None, timeout_msg: None });
     }
     if !thorough {
         for e in ["prompt", "never", "delay-15000"] {
-            v.push(Spec { lat: [33_000, 0, 0], ci_after: 10_000, echo: e.into(), unsolicited_every: Some(5_000), auth_ms: 0, locale: "en_us".into(), ka_write_stall: None, dc_write_stall: None });
+            v.push(Spec { lat: [33_000, 0, 0], ci_after: 10_000, echo: e.into(), unsolicited_every: Some(5_000), auth_ms: 0, locale: "en_us".into(), ka_write_stall: None, dc_write_stall: None, timeout_msg: None });
         }
     }
     v
@@ -334,8 +361,8 @@ pub fn run_with(cli: Cli, extra: &dyn Fn(&Report)) -> ! {
     rep.set("exhaustive", json!(true));
     rep.set("rule", json!("product of adapter latencies {0,8,15.999,16,16.001,33,50 s}^3 (quick: at most two slow adapters), Client Information delay {0,10,16,20,40 s}, echo policy (prompt, delayed by d around the period, never, wrong id, duplicate, first-k-only, unsolicited every 5 s), login duration {0,20 s}; one connection each under virtual time; distinct_nontrivial = distinct timed clientbound traces"));
     rep.sample(json!({"spec": all[0]}));
-    rep.sample(json!({"spec": Spec { lat: [33_000, 0, 0], ci_after: 0, echo: "delay-15999".into(), unsolicited_every: None, auth_ms: 0, locale: "en_us".into(), ka_write_stall: None, dc_write_stall: None }, "expect": "Keep Alive at 16 s and 32 s, Transfer at 33 s"}));
-    rep.sample(json!({"spec": Spec { lat: [50_000, 0, 0], ci_after: 0, echo: "wrong-id".into(), unsolicited_every: None, auth_ms: 0, locale: "de_de".into(), ka_write_stall: None, dc_write_stall: None }, "expect": "Keep Alive at 16 s, timeout Disconnect (German) at 32 s"}));
+    rep.sample(json!({"spec": Spec { lat: [33_000, 0, 0], ci_after: 0, echo: "delay-15999".into(), unsolicited_every: None, auth_ms: 0, locale: "en_us".into(), ka_write_stall: None, dc_write_stall: None, timeout_msg: None }, "expect": "Keep Alive at 16 s and 32 s, Transfer at 33 s"}));
+    rep.sample(json!({"spec": Spec { lat: [50_000, 0, 0], ci_after: 0, echo: "wrong-id".into(), unsolicited_every: None, auth_ms: 0, locale: "de_de".into(), ka_write_stall: None, dc_write_stall: None, timeout_msg: None }, "expect": "Keep Alive at 16 s, timeout Disconnect (German) at 32 s"}));
     rep.assume("time is tokio's paused clock; real-valued time is represented by the +-1 ms neighbours of the period");
     rep.assume("an echo emitted at exactly the instant the next Keep Alive is due, and routing completing at exactly that instant, are outside the statement and not judged");
     rep.assume("'before the next one is due' is read off the observed log: a drop is only judged wrong if the echo was emitted strictly before the Disconnect; a silent client must be gone 16 s after the unechoed Keep Alive");
